@@ -1,74 +1,181 @@
-(* C10, part 6: read offsets (a SPLIT / SLICE fused into the consumer) where the unchanged code IS right:
-   stride 1 along the width; stride 1 without padding along the height.  The other cases are refuted in
-   StripeRefuteProofs.v. *)
+(* C10, part 6: read offsets (a SPLIT / SLICE folded into the consumer).  With the transform as repaired in /repo 6d9d641
+   (rows clamped and padded relative to the read window, strides not applied to the offset) the receptive-field theorem
+   holds for read windows as well: it is the theorem without read offset, translated by the window's origin. *)
 From Coq Require Import ZArith List Bool Lia.
-From VV Require Import lib.PyInt gen.GenArchTables model.Stripe proofs.StripeProofs proofs.StripeTapProofs proofs.StripeUpProofs.
+From VV Require Import lib.PyInt gen.GenArchTables model.Stripe proofs.StripeProofs proofs.StripeTapProofs.
 Import ListNotations.
 Open Scope Z_scope.
 
-(* width: the operator reads columns [off, off + g_in) of a tensor of wfull columns, stride 1 (any kernel, dilation,
-   padding consistent with the geometry); full-width box as the generator always builds it *)
-Lemma stripe_taps_equal_w_split_lemma g off wfull c kx :
-  geom_ok g -> geom_sane g -> g_s g = 1 -> 0 <= off -> off + g_in g <= wfull ->
-  0 <= c < g_out g -> 0 <= kx < g_k g ->
-  let '(x0, x1) := tf_width (0 + off) (Z.min (g_out g + off) (wfull * 1)) 1 (g_sk_t g) (g_sk_b g) wfull (Some (off, g_in g)) in
-  let p := create_padding false false {| p_top := 0; p_left := g_top g; p_bottom := 0; p_right := g_bottom g |}
-             true true 0 0 (Some (off, g_in g)) wfull x0 x1 in
-  hw_tap x0 x1 (p_left p) (p_right p) (g_out g) 1 (g_kd g) c (kx * g_d g)
-  = ref_tap off (off + g_in g) (g_top g) 1 c (kx * g_d g).
+Definition shift (off : Z) (t : tap) : tap := match t with TSrc y => TSrc (y + off) | _ => t end.
+
+Lemma hw_tap_shift b0 b1 p0 p1 n s kd i j off :
+  hw_tap (b0 + off) (b1 + off) p0 p1 n s kd i j = shift off (hw_tap b0 b1 p0 p1 n s kd i j).
 Proof.
-  intros (Hs & Hd & Hk & HH & Ho1 & HoH & Htop & Hskt & Hskb & Hbot) (Sa & Sb) Es Hoff Hfit Hc Hkx.
-  unfold tf_width, create_padding. cbn [andb p_left p_right]. rewrite Hskt, Hskb, Es in *.
-  rewrite ntp_stride1 in * by (unfold g_kd; nia).
-  unfold g_kd in *. set (k := g_k g) in *. set (d := g_d g) in *. set (W := g_in g) in *. set (Wo := g_out g) in *.
-  set (left := g_top g) in *. rewrite !Z.mul_1_r in *.
-  assert (M5 : 0 <= kx * d) by (apply Z.mul_nonneg_nonneg; lia).
-  assert (M6 : kx * d <= (k - 1) * d) by (apply mul_mono_r; lia).
-  assert (M12 : d * (k - 1) = (k - 1) * d) by ring. rewrite M12 in *.
-  set (J := kx * d) in *. set (KD := (k - 1) * d) in *.
-  rewrite (Z.min_l (Wo + off) wfull) by lia.
-  replace (Z.max (0 + off - left) off) with off by lia.
-  destruct (Z.ltb_spec off off); [lia|].
-  unfold hw_tap, ref_tap. rewrite !Z.mul_1_r.
-  destruct (Z.ltb_spec (Z.min (Wo + off + (KD + 1 - 1 - left)) (off + W)) W).
-  - (* the box stops short: no trailing padding needed, the original one is 0 *)
-    assert (g_bottom g = 0) by lia.
-    destruct (Z.ltb_spec (c + J - left) 0), (Z.leb_spec (Wo - 1 + (KD + 1) - left - 0) (c + J - left)); cbn [orb];
-      destruct (Z.ltb_spec (off + c + J - left) off), (Z.leb_spec (off + W) (off + c + J - left)); cbn [orb];
-      try reflexivity; try lia.
-    destruct (Z.ltb_spec (c + J - left) (Z.min (Wo + off + (KD + 1 - 1 - left)) (off + W) - off)); [f_equal; lia|lia].
-  - rewrite Hbot.
-    destruct (Z.ltb_spec (c + J - left) 0),
-      (Z.leb_spec (Wo - 1 + (KD + 1) - left - Z.max 0 (Wo - 1 + (KD + 1) - left - W)) (c + J - left)); cbn [orb];
-      destruct (Z.ltb_spec (off + c + J - left) off), (Z.leb_spec (off + W) (off + c + J - left)); cbn [orb];
-      try reflexivity; try lia.
-    destruct (Z.ltb_spec (c + J - left) (Z.min (Wo + off + (KD + 1 - 1 - left)) (off + W) - off)); [f_equal; lia|lia].
+  unfold hw_tap. replace (b1 + off - (b0 + off)) with (b1 - b0) by lia.
+  destruct ((i * s + j - p0 <? 0) || ((n - 1) * s + kd - p0 - p1 <=? i * s + j - p0)); [reflexivity|].
+  destruct (i * s + j - p0 <? b1 - b0); cbn [shift]; [f_equal; lia | reflexivity].
 Qed.
 
-(* height: the operator reads rows [off, off + g_in) of a tensor of hfull rows, stride 1, no padding (VALID);
-   any stripe [st,en) *)
-Lemma stripe_taps_equal_h_split_valid_lemma g off hfull st en r ky :
-  geom_ok g -> g_s g = 1 -> g_top g = 0 -> g_bottom g = 0 -> g_out g + g_kd g - 1 <= g_in g ->
-  0 <= off -> off + g_in g <= hfull ->
-  0 <= st -> st < en -> en <= g_out g -> st <= r < en -> 0 <= ky < g_k g ->
-  let '(b0, b1, pt, pb) := tf_height (st + off) (Z.min (en + off) (hfull * 1)) (en + off) 1 (g_sk_t g) (g_sk_b g) hfull 1 (g_kd g) in
-  hw_tap b0 b1 pt pb (en - st) 1 (g_kd g) (r - st) (ky * g_d g)
-  = ref_tap off (off + g_in g) 0 1 r (ky * g_d g).
+Lemma ref_tap_shift hi top s r j off :
+  ref_tap off (off + hi) top s r j = shift off (ref_tap 0 hi top s r j).
 Proof.
-  intros (Hs & Hd & Hk & HH & Ho1 & HoH & Htop & Hskt & Hskb & Hbot) Es Et Eb Hvalid Hoff Hfit H0 H1 H2 Hr Hky.
-  rewrite tf_height_up1. rewrite Hskt, Hskb, Es, Et in *. rewrite ntp_stride1 in * by (unfold g_kd; nia).
-  unfold g_kd in *. set (k := g_k g) in *. set (d := g_d g) in *. set (H := g_in g) in *. set (Ho := g_out g) in *.
-  rewrite !Z.mul_1_r in *.
-  assert (M5 : 0 <= ky * d) by (apply Z.mul_nonneg_nonneg; lia).
-  assert (M6 : ky * d <= (k - 1) * d) by (apply mul_mono_r; lia).
-  assert (M12 : d * (k - 1) = (k - 1) * d) by ring. rewrite M12 in *.
-  set (J := ky * d) in *. set (KD := (k - 1) * d) in *.
-  rewrite (Z.min_l (en + off) hfull) by lia. rewrite !Z.mul_1_l.
-  destruct (Z.ltb_spec hfull (en + off + (KD + 1 - 1 - 0))); [lia|].
-  unfold hw_tap, ref_tap. rewrite !Z.mul_1_r.
-  destruct (Z.ltb_spec (r - st + J - Z.max 0 (- (st + off - 0))) 0),
-    (Z.leb_spec (en - st - 1 + (KD + 1) - Z.max 0 (- (st + off - 0)) - 0) (r - st + J - Z.max 0 (- (st + off - 0)))); cbn [orb];
-    destruct (Z.ltb_spec (off + r + J - 0) off), (Z.leb_spec (off + H) (off + r + J - 0)); cbn [orb]; try reflexivity; try lia.
-  destruct (Z.ltb_spec (r - st + J - Z.max 0 (- (st + off - 0)))
-              (Z.max (Z.min (en + off + (KD + 1 - 1 - 0)) hfull) 1 - Z.max (st + off - 0) 0)); [f_equal; lia|lia].
+  unfold ref_tap.
+  destruct (Z.ltb_spec (off + r * s + j - top) off), (Z.ltb_spec (0 + r * s + j - top) 0); try lia; cbn [orb]; [reflexivity|].
+  destruct (Z.leb_spec (off + hi) (off + r * s + j - top)), (Z.leb_spec hi (0 + r * s + j - top)); try lia; cbn [shift];
+    [reflexivity | f_equal; lia].
+Qed.
+
+(* one axis: any stripe [st,en) of an operator that reads the window [off, off + g_in) -- the box of the window-relative
+   computation moved by off resolves every tap like the operator does inside its window (padding outside it) *)
+Lemma stripe_taps_equal_read_offset_1d_lemma g woff off st en r ky :
+  geom_ok g -> woff <= st -> st < en -> en <= woff + g_out g -> st <= r < en -> 0 <= ky < g_k g ->
+  let '(b0, b1, pt, pb) := stripe_h g woff st en in
+  hw_tap (b0 + off) (b1 + off) pt pb (en - st) (g_s g) (g_kd g) (r - st) (ky * g_d g)
+  = ref_tap off (off + g_in g) (g_top g) (g_s g) (r - woff) (ky * g_d g).
+Proof.
+  intros G H1 H2 H3 Hr Hk. pose proof (stripe_h_taps g woff st en r ky G H1 H2 H3 Hr Hk) as T.
+  destruct (stripe_h g woff st en) as [[[b0 b1] pt] pb].
+  rewrite hw_tap_shift, ref_tap_shift, T. reflexivity.
+Qed.
+
+(* ---------- through transform and create_padding ---------- *)
+Definition stripe_box_ok_rd (o : convop) (so ss : c4) (b : box) : Prop :=
+  cn (fst b) <= cn (snd b) /\
+  ch (o_woff o) <= ch (fst b) /\ ch (fst b) < ch (snd b) /\ ch (snd b) <= ch (o_woff o) + ch (o_oshape o) /\
+  cw (fst b) = cw (o_woff o) /\ cw (snd b) = cw (o_woff o) + cw (o_oshape o) /\
+  (if is_dot_block (o_bt o) then cc so <= Z.min (cc so + cc ss) (cc (o_ifm o))
+   else cc (fst b) - cc (o_woff o) + cc so <= Z.min (cc (snd b) - cc (o_woff o) + cc so) (cc (o_ifm o))).
+
+(* the read window lies inside the tensor *)
+Definition window_ok (o : convop) (so ss : c4) : Prop :=
+  0 <= ch so /\ ch so + ch ss <= ch (o_ifm o) /\ 0 <= cw so /\ cw so + cw ss <= cw (o_ifm o).
+
+Lemma stripe_taps_equal_read_offset_lemma o so ss b :
+  geom_ok (conv_geom_h_rd o ss) -> geom_sane (conv_geom_h_rd o ss) ->
+  geom_ok (conv_geom_w_rd o ss) -> geom_sane (conv_geom_w_rd o ss) ->
+  (o_bt o =? BT_VectorProduct) = false -> window_ok o so ss -> stripe_box_ok_rd o so ss b ->
+  exists ib pt pb,
+    transform (conv_tf_rd o so ss b) = Some (ib, pt, pb) /\
+    (* the box is the receptive field inside the window, moved to the window's place in the tensor *)
+    ch (fst ib) = ch so + Z.max ((ch (fst b) - ch (o_woff o)) * o_sy o - p_top (o_skirt o)) 0 /\
+    ch (snd ib) = ch so + Z.max (Z.min ((ch (snd b) - ch (o_woff o)) * o_sy o + p_bottom (o_skirt o)) (ch ss)) 1 /\
+    cw (fst ib) = cw so /\
+    cw (snd ib) = cw so + Z.min (cw (o_oshape o) * o_sx o + p_right (o_skirt o)) (cw ss) /\
+    (* pad_top / pad_bottom are the rows of the kernel footprint above / below the window *)
+    pt = Z.max 0 (p_top (o_skirt o) - (ch (fst b) - ch (o_woff o)) * o_sy o) /\
+    pb = Z.max 0 ((ch (snd b) - ch (o_woff o) - 1) * o_sy o + (o_dy o * (o_kh o - 1) + 1) - p_top (o_skirt o) - ch ss) /\
+    let p := conv_hw_padding_rd o so ss b ib pt pb in
+    forall r c ky kx,
+      ch (fst b) <= r < ch (snd b) -> cw (fst b) <= c < cw (snd b) -> 0 <= ky < o_kh o -> 0 <= kx < o_kw o ->
+      hw_tap (ch (fst ib)) (ch (snd ib)) (p_top p) (p_bottom p) (ch (snd b) - ch (fst b)) (o_sy o)
+             (o_dy o * (o_kh o - 1) + 1) (r - ch (fst b)) (ky * o_dy o)
+        = ref_tap (ch so) (ch so + ch ss) (p_top (o_pad o)) (o_sy o) (r - ch (o_woff o)) (ky * o_dy o)
+      /\
+      hw_tap (cw (fst ib)) (cw (snd ib)) (p_left p) (p_right p) (cw (snd b) - cw (fst b)) (o_sx o)
+             (o_dx o * (o_kw o - 1) + 1) (c - cw (fst b)) (kx * o_dx o)
+        = ref_tap (cw so) (cw so + cw ss) (p_left (o_pad o)) (o_sx o) (c - cw (o_woff o)) (kx * o_dx o).
+Proof.
+  intros Gh Sh Gw Sw Hvp (Wh0 & Wh1 & Ww0 & Ww1) (Bn & Bh0 & Bh1 & Bh2 & Bw0 & Bw1 & Bd).
+  pose proof Gh as Gh'. pose proof Gw as Gw'.
+  destruct Gh' as (Hs & Hd & Hk & HH & Ho1 & HoH & Htop & Hskt & Hskb & Hbot).
+  destruct Gw' as (Ws & Wd & Wk & WW & Wo1 & WoW & Wtop & Wskt & Wskb & Wbot).
+  destruct Sh as [Sh1 Sh2]. destruct Sw as [Sw1 Sw2].
+  pose proof (fun r ky => stripe_taps_equal_read_offset_1d_lemma (conv_geom_h_rd o ss) (ch (o_woff o)) (ch so) (ch (fst b)) (ch (snd b)) r ky
+                Gh Bh0 Bh1 Bh2) as TH.
+  pose proof (fun c kx => stripe_taps_equal_read_offset_1d_lemma (conv_geom_w_rd o ss) (cw (o_woff o)) (cw so) (cw (fst b)) (cw (snd b)) c kx Gw
+                ltac:(lia) ltac:(unfold conv_geom_w_rd in *; cbn [g_out] in *; lia) ltac:(unfold conv_geom_w_rd; cbn [g_out]; lia)) as TW.
+  unfold conv_geom_h_rd, conv_geom_w_rd, g_kd in *.
+  cbn [g_in g_out g_k g_d g_s g_top g_bottom g_sk_t g_sk_b] in *.
+  unfold stripe_h, g_kd in TH, TW.
+  cbn [g_in g_out g_k g_d g_s g_top g_bottom g_sk_t g_sk_b] in TH, TW.
+  rewrite tf_height_up1 in TH, TW.
+  destruct (needed_total_padding_ge (ch ss) (o_sy o) (o_dy o * (o_kh o - 1) + 1) ltac:(lia)) as [Hyp Hyp0].
+  destruct (needed_total_padding_ge (cw ss) (o_sx o) (o_dx o * (o_kw o - 1) + 1) ltac:(lia)) as [Wyp Wyp0].
+  unfold transform, conv_tf_rd.
+  cbv beta iota zeta delta [t_s t_e t_has_ss t_sy t_sx t_skirt t_ifm t_dot t_concat t_kdh t_split t_up t_wrap tf_width].
+  change (1 =? 0) with false. cbv iota.
+  set (st := ch (fst b)) in *. set (en := ch (snd b)) in *. set (woff := ch (o_woff o)) in *.
+  set (H := ch ss) in *. set (W := cw ss) in *. set (fh := ch so) in *. set (fw := cw so) in *.
+  rewrite !Z.mul_1_r.
+  rewrite Bw0, Bw1 in *.
+  replace (cw (o_woff o) - cw (o_woff o) + fw - fw) with 0 by lia.
+  replace (cw (o_woff o) - cw (o_woff o)) with 0 in * by lia.
+  replace (Z.min (cw (o_woff o) + cw (o_oshape o) - cw (o_woff o) + fw) (cw (o_ifm o)) - fw) with (cw (o_oshape o)) by lia.
+  replace (cw (o_woff o) + cw (o_oshape o) - cw (o_woff o)) with (cw (o_oshape o)) in * by lia.
+  replace (st - woff + fh - fh) with (st - woff) by lia.
+  replace (Z.min (en - woff + fh) (ch (o_ifm o)) - fh) with (en - woff) by lia.
+  replace (en - woff + fh - fh) with (en - woff) by lia.
+  rewrite tf_height_up1.
+  rewrite (Z.min_l (cw (o_oshape o)) W) in * by lia.
+  rewrite (Z.min_l (en - woff) H) in * by lia.
+  rewrite Z.mul_0_l in *.
+  assert (MA : 0 <= (st - woff) * o_sy o) by (apply Z.mul_nonneg_nonneg; lia).
+  assert (MB : (st - woff + 1) * o_sy o <= (en - woff) * o_sy o) by (apply mul_mono_r; lia).
+  assert (MC : (st - woff) * o_sy o <= (ch (o_oshape o) - 1) * o_sy o) by (apply mul_mono_r; lia).
+  assert (MD : 1 * o_sx o <= cw (o_oshape o) * o_sx o) by (apply mul_mono_r; lia).
+  assert (ME : (en - woff - 1) * o_sy o = (en - woff) * o_sy o - o_sy o) by ring.
+  assert (MF : o_sy o * (en - woff - (st - woff) - 1) = (en - woff) * o_sy o - (st - woff) * o_sy o - o_sy o) by ring.
+  unfold mk_box, c4_le. cbn [cn ch cw cc].
+  assert (C1 : (cn (fst b) - cn (o_woff o) + cn so <=? cn (snd b) - cn (o_woff o) + cn so) = true) by (apply Z.leb_le; lia).
+  assert (C2 : (Z.max ((st - woff) * o_sy o - p_top (o_skirt o)) 0 + fh <=?
+                Z.max (Z.min ((en - woff) * o_sy o + p_bottom (o_skirt o)) H) 1 + fh) = true)
+    by (apply Z.leb_le; rewrite Hskt, Hskb; lia).
+  assert (C3 : (Z.max (0 - p_left (o_skirt o)) 0 + fw <=? Z.min (cw (o_oshape o) * o_sx o + p_right (o_skirt o)) W + fw) = true)
+    by (apply Z.leb_le; rewrite Wskt, Wskb; lia).
+  assert (Hd2 : exists c0 c1, (if is_dot_block (o_bt o) then (cc so, cc so + cc ss)
+                               else (cc (fst b) - cc (o_woff o) + cc so, cc (snd b) - cc (o_woff o) + cc so)) = (c0, c1) /\
+                              c0 <= Z.min c1 (cc (o_ifm o))).
+  { destruct (is_dot_block (o_bt o)); eexists _, _; (split; [reflexivity|exact Bd]). }
+  destruct Hd2 as (c0 & c1 & Ed & Hc01). rewrite Ed.
+  assert (C4 : (c0 <=? Z.min c1 (cc (o_ifm o))) = true) by (apply Z.leb_le; exact Hc01).
+  rewrite C1, C2, C3, C4. cbn [andb].
+  eexists _, _, _. split; [reflexivity|].
+  cbn [fst snd ch cw cn cc].
+  split; [lia|]. split; [lia|]. split; [rewrite Wskt; lia|]. split; [lia|].
+  split; [rewrite Hskt; lia|].
+  split.
+  { destruct (Z.ltb_spec H ((en - woff) * o_sy o + p_bottom (o_skirt o))); rewrite ?MF, ?ME, ?Hskt, ?Hskb in *; lia. }
+  cbv zeta. unfold conv_hw_padding_rd, create_padding. rewrite Hvp. cbn [fst snd ch cw cn cc p_top p_bottom p_left p_right].
+  fold st en woff.
+  intros r c ky kx Hr Hc Hky Hkx. split.
+  - specialize (TH r ky Hr Hky). rewrite Hskt, Hskb in *.
+    destruct ((st =? woff) && (woff + ch (o_oshape o) <=? en)); exact TH.
+  - specialize (TW c kx ltac:(lia) Hkx).
+    rewrite Z.eqb_refl in TW. rewrite Z.leb_refl in TW. cbn [andb] in TW.
+    rewrite Wskt, Wskb in *.
+    replace (Z.max (0 - p_left (o_pad o)) 0) with 0 in * by lia.
+    rewrite (Z.max_l _ 1) in TW by lia.
+    clear TH. fold fw W.
+    replace (fw <? 0 + fw) with false by (symmetry; apply Z.ltb_ge; lia). cbv iota.
+    destruct (Z.ltb_spec (Z.min (cw (o_oshape o) * o_sx o + (needed_total_padding W (o_sx o) (o_dx o * (o_kw o - 1) + 1) - p_left (o_pad o))) W + fw) W) as [Hlt|Hge].
+    + (* the box stops short of the window's end: no trailing padding is needed, and the original one is 0 *)
+      assert (MG : (cw (o_oshape o) - 1) * o_sx o = cw (o_oshape o) * o_sx o - o_sx o) by ring.
+      assert (p_right (o_pad o) = 0) by (rewrite Wbot; clear TW; lia).
+      replace (p_right (o_pad o)) with 0 in TW by lia. exact TW.
+    + exact TW.
+Qed.
+
+(* the hypotheses are satisfiable by a non-trivial instance: 3x3 stride-2 SAME convolution reading rows [3,10) (7 rows, odd)
+   of a 16x16 tensor, second of two stripes (OFM rows [2,4) of 4) *)
+Example stripe_taps_equal_read_offset_example :
+  exists o so ss b pad skirt,
+    calc_padding_and_skirt PAD_SAME 3 3 2 2 7 16 {| p_top := 0; p_left := 0; p_bottom := 0; p_right := 0 |} = Some (pad, skirt) /\
+    o = {| o_ifm := {| cn := 1; ch := 16; cw := 16; cc := 8 |}; o_oshape := {| cn := 1; ch := 4; cw := 8; cc := 8 |};
+           o_woff := {| cn := 0; ch := 0; cw := 0; cc := 0 |}; o_kh := 3; o_kw := 3; o_dy := 1; o_dx := 1; o_sy := 2; o_sx := 2;
+           o_pad := pad; o_skirt := skirt; o_bt := BT_ConvolutionMxN |} /\
+    so = {| cn := 0; ch := 3; cw := 0; cc := 0 |} /\ ss = {| cn := 1; ch := 7; cw := 16; cc := 8 |} /\
+    b = ({| cn := 0; ch := 2; cw := 0; cc := 0 |}, {| cn := 1; ch := 4; cw := 8; cc := 8 |}) /\
+    geom_ok (conv_geom_h_rd o ss) /\ geom_sane (conv_geom_h_rd o ss) /\ geom_ok (conv_geom_w_rd o ss) /\ geom_sane (conv_geom_w_rd o ss) /\
+    window_ok o so ss /\ stripe_box_ok_rd o so ss b /\
+    transform (conv_tf_rd o so ss b) = Some (({| cn := 0; ch := 6; cw := 0; cc := 0 |}, {| cn := 1; ch := 10; cw := 16; cc := 8 |}), 0, 1).
+Proof.
+  eexists _, _, _, _, _, _. split; [vm_compute; reflexivity|]. split; [reflexivity|]. split; [reflexivity|].
+  split; [reflexivity|]. split; [reflexivity|].
+  assert (Gh := same_geom_ok 7 4 3 1 2 _ _ 3 2 16 {| p_top := 0; p_left := 0; p_bottom := 0; p_right := 0 |}
+                  ltac:(lia) ltac:(lia) ltac:(lia) ltac:(lia) ltac:(reflexivity) ltac:(vm_compute; reflexivity)).
+  assert (Gw := same_geom_ok_w 16 8 3 1 2 _ _ 3 2 7 {| p_top := 0; p_left := 0; p_bottom := 0; p_right := 0 |}
+                  ltac:(lia) ltac:(lia) ltac:(lia) ltac:(lia) ltac:(reflexivity) ltac:(vm_compute; reflexivity)).
+  destruct Gh as [Gh1 Gh2]. destruct Gw as [Gw1 Gw2].
+  split; [exact Gh1|]. split; [exact Gh2|]. split; [exact Gw1|]. split; [exact Gw2|].
+  split; [unfold window_ok; cbn; lia|]. split; [unfold stripe_box_ok_rd; cbn; lia|]. vm_compute. reflexivity.
 Qed.
